@@ -164,7 +164,7 @@ class TLCResult(object):
 
 
 def java_cmd(jvm_props=(), heap="8g"):
-    return ["java", "-XX:+UseParallelGC", "-Xmx" + heap] + ["-D" + p for p in jvm_props] + \
+    return ["java", "-XX:+UseParallelGC", "-Xss256m", "-Xmx" + heap] + ["-D" + p for p in jvm_props] + \
            ["-cp", JAR + ":" + DEPS, "tlc2.TLC"]
 
 
